@@ -602,14 +602,19 @@ def run(cx):
             except dl.Unsupported as ex_:
                 raise AnalysisError(f"{name} left the evaluable subset on {src!r}: {ex_}")
             r.check(outc[0] == "return" or outc[1] == "ValueError", f"{name}/extreme-literal-is-folded-or-refused", (pm, clos[name]), f"{name}({src!r}) raises {outc[1]}: an internal error escapes instead of a ValueError or a run-time expression", sample=f"{name}({src})")
-    ha = pm.func("_handle_assignment_ast")
-    tup = [n for n in walk_local(ha) if isinstance(n, ast.If) and norm(n.test) == "isinstance(target, (ast.Tuple, ast.List))"]
-    if len(tup) != 1:
-        raise AnalysisError("tuple-assignment branch not found")
-    guards = [n for n in tup[0].body if isinstance(n, ast.If) and "len(value.elts)" in norm(n.test) and "len(left_names)" in norm(n.test) and isinstance(n.test, ast.Compare) and isinstance(n.test.ops[0], ast.NotEq) and any(isinstance(x, ast.Raise) for x in n.body)]
-    first_index = min([(n.lineno, n.col_offset) for n in walk_local(tup[0]) if isinstance(n, ast.Subscript) and isinstance(n.slice, ast.Name) and n.slice.id == "idx"] or [(10 ** 9, 0)])
-    r.check(len(guards) == 1 and (guards[0].lineno, guards[0].col_offset) < first_index, "_handle_assignment_ast/tuple-arity-checked-before-indexing", (pm, tup[0]), "`a, b = (1,)`: the per-target lists are indexed by target position without a preceding `len(value.elts) != len(left_names)` rejection (IndexError, an internal error)")
-
+    # tuple assignment with a wrong number of values: refused with ValueError (never IndexError) - scripts through parse()
+    from .. import pe as _pe
+    pf_ = pm.func("parse")
+    for label, line in (("one-value-two-targets", "a, b = (1,)"), ("three-values-two-targets", "a, b = 1, 2, 3"), ("two-values-three-targets", "a, b, c = 1, 2"), ("list-form", "[a, b] = [1]"),
+                        ("empty-tuple", "a, b = ()"), ("redeclared-targets", "a = 0\nb = 0\na, b = 1, 2, 3"), ("nested-target", "a, (b, c) = 1, (2, 3)"), ("starred-target", "a, *b = 1, 2, 3"), ("scalar-value", "a, b = 5")):
+        for place in ("setup", "loop", "function"):
+            body = line.replace("\n", "\n" + ("    " if place != "setup" else ""))
+            src = (line + "\nwhile True:\n    z0 = 0\n") if place == "setup" else ("while True:\n    " + body + "\n") if place == "loop" else ("def f():\n    " + body + "\n    return 0\nwhile True:\n    z0 = f()\n")
+            try:
+                _it, out = _pe.parse_source(src)
+            except dl.Unsupported as e:
+                raise AnalysisError(f"parse() left the evaluable subset on `{line}` ({place}): {e}")
+            r.check(out.kind == "return" or out.value == "ValueError", f"tuple-arity[{label}]/refused-with-ValueError[{place}]", (pm, pf_), f"`{line}` in {place}: parse() raises {out.value}: an internal error instead of a ValueError", sample=f"{label}/{place}")
     # ---- C11-COST ----------------------------------------------------------------------------
     r = cx.rule("C11-COST", "operators whose cost is unbounded in the size of literal operands (**, <<) are guarded by a magnitude check before being applied at transpile time", floor=2)
     ab = pm.funcs.get("_eval_const._apply_bin")
